@@ -316,6 +316,15 @@ func c18Asm(args []string) error {
 	prog := []string{filepath.Join(work, "prog")}
 	// assembled exactly as cmd/runprog does
 	_, _, _, base := config.GetConf("", work, prog, filehandler.GetExtraSet(nil, nil), filehandler.GetExtraSet(nil, nil), false)
+	// the default policy is evaluated before any other policy exists in this process: a policy assembled later
+	// must not depend on (or change) one assembled earlier
+	baseV := map[string]string{}
+	for _, q := range qs {
+		qp := filepath.Join(append([]string{t}, q.Q...)...)
+		for _, class := range []string{"write", "read", "stat"} {
+			baseV[class+" "+qp] = verdict(base, class, qp)
+		}
+	}
 	for _, c := range cases {
 		addRead := filehandler.GetExtraSet(names(c.RExt), names(c.RRaw))
 		addWrite := filehandler.GetExtraSet(names(c.WExt), names(c.WRaw))
@@ -323,8 +332,16 @@ func c18Asm(args []string) error {
 		for _, q := range qs {
 			qp := filepath.Join(append([]string{t}, q.Q...)...)
 			for _, class := range []string{"write", "read", "stat"} {
-				out.Write(c18AsmObs{c18AsmCase: c, Q: q.Q, Class: class, Base: verdict(base, class, qp), Got: verdict(h, class, qp)})
+				out.Write(c18AsmObs{c18AsmCase: c, Q: q.Q, Class: class, Base: baseV[class+" "+qp], Got: verdict(h, class, qp)})
 			}
+		}
+	}
+	// the default policy assembled first, asked again after all the others were assembled (no extras: it must
+	// still answer as it did)
+	for _, q := range qs {
+		qp := filepath.Join(append([]string{t}, q.Q...)...)
+		for _, class := range []string{"write", "read", "stat"} {
+			out.Write(c18AsmObs{c18AsmCase: c18AsmCase{RRaw: []string{}, RExt: []string{}, WRaw: []string{}, WExt: []string{}}, Q: q.Q, Class: class, Base: baseV[class+" "+qp], Got: verdict(base, class, qp)})
 		}
 	}
 	return nil
